@@ -1,7 +1,6 @@
 package props
 
 import (
-
 	"golang.org/x/tools/go/ssa"
 
 	"idenaverif/internal/engine"
@@ -337,7 +336,51 @@ func c16R4(p *engine.Prog, r *engine.Report) {
 		}
 		r.Check(ok, "C16-R4", "getPrivateKeyPackageIndex|returns the position in the raw list", p.Pos(f.Pos()), "range index of the first match", "package index is not the position in candidatesPerAuthor[author]")
 	}
-	r.Floor("C16-R4", 3, "placeholder + two positional readers")
+	// the writer of the package: one slot per recipient, in order — every iteration of the loop over the
+	// recipients' keys appends exactly one element (a placeholder when a key cannot be used)
+	if f := mustFunc(p, r, "core/mempool", "EncryptPrivateKeysPackage"); f != nil {
+		var hdr *ssa.BasicBlock
+		var appends []ssa.CallInstruction
+		for _, c := range engine.Calls(f) {
+			bi, isB := c.Common().Value.(*ssa.Builtin)
+			if !isB || bi.Name() != "append" {
+				continue
+			}
+			if h := engine.LoopHeaderOf(c.Block()); h != nil {
+				hdr = h
+				appends = append(appends, c)
+			}
+		}
+		ok := hdr != nil && len(appends) > 0
+		if ok {
+			// the next iteration is reachable from the loop body only through an append
+			cut := map[*ssa.BasicBlock]bool{}
+			for _, a := range appends {
+				cut[a.Block()] = true
+			}
+			for _, s := range hdr.Succs {
+				if !loopBlocks(hdr)[s] || cut[s] {
+					continue
+				}
+				if engine.ReachAvoiding(f, s, nil, cut)[hdr] {
+					ok = false
+				}
+			}
+			// and no iteration appends twice: no append block reaches another append block without the header
+			for _, a := range appends {
+				for _, s := range a.Block().Succs {
+					reach := engine.ReachAvoiding(f, s, nil, map[*ssa.BasicBlock]bool{hdr: true})
+					for _, b := range appends {
+						if reach[b.Block()] {
+							ok = false
+						}
+					}
+				}
+			}
+		}
+		r.Check(ok, "C16-R4", "EncryptPrivateKeysPackage|one slot per recipient, in order", p.Pos(f.Pos()), "every iteration appends exactly once", "some recipient gets no slot (or two): every later recipient reads the key encrypted for its neighbour — positions are what getPrivateKeyPackageIndex / GetEncryptedPrivateFlipKey address")
+	}
+	r.Floor("C16-R4", 4, "placeholder + two positional readers")
 }
 
 // dependsOnLoopPosition: v is computed from the position variable of the (ordered) loop made of blocks:
